@@ -6,9 +6,11 @@ void *__exc_obj = 0;
 int __exc_ti = 0;
 int __exc_caught_depth = 0;
 u64 __exc_throw_count = 0;
-u8 __exc_storage[4][256];
-int __exc_slot = 0;
+struct __exc_slot_t __exc_slot_obj;
 u64 __verif_alloca_max = 0;
+#ifdef __CPROVER__
+u8 nd_val_u8; u16 nd_val_u16; u32 nd_val_u32; u64 nd_val_u64; _Bool nd_val_bool;
+#endif
 
 /* operator new / delete (allocation failure is outside every claim: non-null) */
 u8 *_Znwm(u64 n) { return __verif_new(n); }
